@@ -127,6 +127,22 @@ def c09_3(ctx):
                   "the sub-key memo is keyed by %s but the memoised value is _subkey(%s): requests that differ in an argument missing from the key share one slot (e.g. the private and the public child)" % (kelts, args),
                   sample={"memo_key": kelts, "computed_from": args})
     _refcheck(ctx, B32N, "BIP32Node.subkey", "n_subkey", "memo")
+    # the memo is filled by the memoising method only, for the node it belongs to: entries copied in from another node were derived
+    # under THAT node's conditions (a private parent may derive hardened children, its public copy may not)
+    for rel, cname in ((B32N, "BIP32Node"), ("pycoin/key/BIP49Node.py", "BIP49Node"), ("pycoin/key/BIP84Node.py", "BIP84Node"), ("pycoin/key/HierarchicalKey.py", "HierarchicalKey")):
+        c = ctx.p.cls(rel, cname)
+        for name, m in sorted(c.methods.items()):
+            for n in ast.walk(m.node):
+                recv = None
+                if isinstance(n, ast.Call) and isinstance(n.func, ast.Attribute) and n.func.attr in ("update", "setdefault", "__setitem__") and isinstance(n.func.value, ast.Attribute) and n.func.value.attr == "_subkey_cache":
+                    recv = n.func.value.value
+                elif isinstance(n, ast.Subscript) and isinstance(n.ctx, ast.Store) and isinstance(n.value, ast.Attribute) and n.value.attr == "_subkey_cache":
+                    recv = n.value.value
+                if recv is None:
+                    continue
+                ctx.check(name == "subkey" and norm(recv) == "self", "memo-filled-by-subkey-only:%s.%s" % (cname, name), ctx.where(m, n),
+                          "%s.%s fills a sub-key memo (`%s`) outside the memoising method / for another node: entries derived under one node's conditions are found by another (a public copy then hands out the hardened child it must refuse to derive)" % (cname, name, norm(n)[:60]),
+                          what="memo-fill:%s.%s" % (cname, name))
     # the memo belongs to one node: it is only ever bound to a fresh dict
     for rel, cname in ((B32N, "BIP32Node"), ("pycoin/key/BIP49Node.py", "BIP49Node"), ("pycoin/key/BIP84Node.py", "BIP84Node"), ("pycoin/key/HierarchicalKey.py", "HierarchicalKey")):
         c = ctx.p.cls(rel, cname)
